@@ -270,8 +270,8 @@ type SliceVal struct {
 }
 
 type MapVal struct {
-	Keys []Value
-	M    map[string]Value // keyed by concrete string rendering
+	Keys  []Value
+	M     map[string]Value // keyed by concrete string rendering
 	IsNil bool
 }
 
